@@ -40,8 +40,29 @@ ROUND6 = {
 }
 
 
+ROUND7 = {
+    'C01': ' IEEE environment around 1E+308.',
+    'C03': ' Families name-like-cell (names such as YTD2024, A9999999) and cross-set (a range member whose precedent on another sheet is set after the '
+           'range was read); random workbook driver, mix c03 (600 / 30000 workbooks).',
+    'C04': ' Shape junction; wherever the specification leaves a response open the replay and the driver compare it with the response of a freshly '
+           'compiled model holding the current contents (the relation the property states).',
+    'C05': ' Shape crit (criteria that read alike as text).',
+    'C06': ' Long sparse ranges on sheets whose names need quoting; references that occur only as the argument of an information function.',
+    'C07': ' Big doubles under & and the comparisons, zone texts, error-history events (a range member turning into an error value and back).',
+    'C08': ' numpy.float64 noisy doubles; zeros in variadic lists under the blank / None / FALSE spellings.',
+    'C10': ' The reused-model pass also on a model that does not store the assignment cells; AND / OR over references to formula cells holding results of functions.',
+    'C14': ' Scalars spelt with a negative exponent (1E-05).',
+    'C15': ' FALSE as match type of MATCH.',
+    'C16': ' CEILING / FLOOR with quotients of 1E+13 and more and almost-multiples, in every run.',
+    'C17': ' The double -0.0 as text.',
+    'C18': ' YEARFRAC actual/actual for periods longer than a year (average length of the years touched).',
+    'C19': ' A deterministic block of digit strings with one punctuation character, as formula literals and direct arguments.',
+    'C20': ' Financial-history events (PV over a PMT cell, NPV over growing flows, the input two levels below set).',
+}
+
+
 def claim(pid, technique, text, note, ref):
-    CLAIMED[pid] = (technique, text + ROUND6.get(pid, ''), note, ref)
+    CLAIMED[pid] = (technique, text + ROUND6.get(pid, '') + ROUND7.get(pid, ''), note, ref)
 
 
 claim('C17',
